@@ -22,8 +22,8 @@ Inductive node :=
 | NPath (id : N) (fill stroke : paint)                    (* Path: id, fill.paint, stroke.paint *)
 | NImage (id : N) (sub : option group)                    (* ImageKind::SVG(tree) => Some tree.root *)
 | NText (id : N) (flat : group) (chunks : list chunk)     (* Text: id, flattened, chunks *)
-with group :=
-| G (id : N) (clip : option clipdef) (mask : option maskdef) (filters : list filterdef) (kids : list node)
+with group :=     (* styled: blend_mode != Normal || isolate (the writer then emits one `style` attribute) *)
+| G (id : N) (styled : bool) (clip : option clipdef) (mask : option maskdef) (filters : list filterdef) (kids : list node)
 with clipdef := CD (ptr id : N) (next : option clipdef) (root : group)      (* ClipPath *)
 with maskdef := MD (ptr id : N) (next : option maskdef) (root : group)      (* Mask *)
 with filterdef := FD (ptr id : N) (prims : list prim)                       (* filter::Filter *)
@@ -42,11 +42,12 @@ Record tree := T {
   t_clips : list clipdef; t_masks : list maskdef; t_filts : list filterdef }.
 
 (* ---------------------------------------------------------------- accessors *)
-Definition g_id (g : group) := match g with G i _ _ _ _ => i end.
-Definition g_clip (g : group) := match g with G _ c _ _ _ => c end.
-Definition g_mask (g : group) := match g with G _ _ m _ _ => m end.
-Definition g_filters (g : group) := match g with G _ _ _ f _ => f end.
-Definition g_kids (g : group) := match g with G _ _ _ _ k => k end.
+Definition g_id (g : group) := match g with G i sy _ _ _ _ => i end.
+Definition g_styled (g : group) := match g with G _ s _ _ _ _ => s end.
+Definition g_clip (g : group) := match g with G _ _ c _ _ _ => c end.
+Definition g_mask (g : group) := match g with G _ _ _ m _ _ => m end.
+Definition g_filters (g : group) := match g with G _ _ _ _ f _ => f end.
+Definition g_kids (g : group) := match g with G _ _ _ _ _ k => k end.
 Definition c_ptr (c : clipdef) := match c with CD p _ _ _ => p end.
 Definition c_id (c : clipdef) := match c with CD _ i _ _ => i end.
 Definition c_next (c : clipdef) := match c with CD _ _ n _ => n end.
@@ -119,13 +120,13 @@ Section Walk.
     end
   with walk_group (g : group) (a : A) {struct g} : A :=
     match g with
-    | G _ _ _ _ kids =>
+    | G _ _ _ _ _ kids =>
         (fix go (l : list node) (a : A) : A :=
            match l with [] => a | n :: r => go r (walk_node n a) end) kids a
     end
   with walk_gsub (g : group) (a : A) {struct g} : A :=
     match g with
-    | G _ clip mask filters _ =>
+    | G _ _ clip mask filters _ =>
         let a := match clip with Some c => walk_clip c a | None => a end in
         let a := match mask with Some m => walk_mask m a | None => a end in
         (fix go (l : list filterdef) (a : A) : A :=
@@ -201,7 +202,7 @@ Definition with_collections (root : group) : tree :=
 (* ---------------------------------------------------------------- node_by_id *)
 Fixpoint node_by_id (parent : group) (i : N) {struct parent} : option node :=
   match parent with
-  | G _ _ _ _ kids =>
+  | G _ _ _ _ _ kids =>
       (fix go (l : list node) : option node :=
          match l with
          | [] => None
@@ -229,12 +230,12 @@ Fixpoint all_node (n : node) {struct n} : list node :=
        end
 with all_group (g : group) {struct g} : list node :=
   match g with
-  | G _ _ _ _ kids => (fix go (l : list node) : list node :=
+  | G _ _ _ _ _ kids => (fix go (l : list node) : list node :=
                          match l with [] => [] | n :: r => all_node n ++ go r end) kids
   end
 with all_gdefs (g : group) {struct g} : list node :=
   match g with
-  | G _ clip mask filters _ =>
+  | G _ _ clip mask filters _ =>
       match clip with Some c => all_clip c | None => [] end ++
       match mask with Some m => all_mask m | None => [] end ++
       (fix go (l : list filterdef) : list node :=
